@@ -180,10 +180,12 @@ def build(desc: dict) -> Any:
         extra = desc.get("extra_coord")
         if extra:
             # a non-index coordinate along the first feature dim ...
-            da = da.assign_coords({f"aux_{fnames[0]}": (fnames[0], np.arange(fsizes[0]) * 2.0)})
+            # (the *name* of a non-index coordinate carries no blank: CF lists such coordinates blank-separated in
+            #  the "coordinates" attribute, so xarray itself cannot round-trip one through any store)
+            da = da.assign_coords({f"aux_{fnames[0]}".replace(" ", "_"): (fnames[0], np.arange(fsizes[0]) * 2.0)})
             if extra == "both":
                 # ... and one along the first sample dim (e.g. season(time))
-                da = da.assign_coords({f"aux_{snames[0]}": (snames[0], np.arange(ssizes[0]) % 4)})
+                da = da.assign_coords({f"aux_{snames[0]}".replace(" ", "_"): (snames[0], np.arange(ssizes[0]) % 4)})
         da.name = (desc.get("names") or ["v0", "v1", "v2", "v3"])[k]
         out.append(da)
 
